@@ -23,6 +23,73 @@ thread_local! {
     static OFFSET: Cell<isize> = const { Cell::new(0) };
     /// peak tracking is suspended while harness code runs inside the window
     static PAUSED: Cell<bool> = const { Cell::new(false) };
+    /// recording of the blocks a library call leaves allocated (the memory of the value it returned)
+    static RECORDING: Cell<bool> = const { Cell::new(false) };
+    static REC_N: Cell<usize> = const { Cell::new(0) };
+    static REC: Cell<[(usize, usize); REC_MAX]> = const { Cell::new([(0, 0); REC_MAX]) };
+}
+
+pub const REC_MAX: usize = 24;
+
+#[inline]
+fn rec_add(ptr: usize, size: usize) {
+    let _ = RECORDING.try_with(|r| {
+        if r.get() && !PAUSED.try_with(|p| p.get()).unwrap_or(true) {
+            let _ = REC_N.try_with(|n| {
+                let k = n.get();
+                if k < REC_MAX {
+                    let _ = REC.try_with(|a| {
+                        let mut v = a.get();
+                        v[k] = (ptr, size);
+                        a.set(v);
+                    });
+                }
+                n.set(k + 1);
+            });
+        }
+    });
+}
+
+#[inline]
+fn rec_del(ptr: usize) {
+    let _ = RECORDING.try_with(|r| {
+        if r.get() {
+            let _ = REC_N.try_with(|n| {
+                let k = n.get().min(REC_MAX);
+                let _ = REC.try_with(|a| {
+                    let mut v = a.get();
+                    for i in 0..k {
+                        if v[i].0 == ptr {
+                            v[i] = v[k - 1];
+                            v[k - 1] = (0, 0);
+                            a.set(v);
+                            if n.get() <= REC_MAX {
+                                n.set(n.get() - 1);
+                            }
+                            return;
+                        }
+                    }
+                });
+            });
+        }
+    });
+}
+
+/// Start recording the blocks allocated (and not freed again) on this thread outside harness sections.
+pub fn record_start() {
+    REC_N.with(|n| n.set(0));
+    RECORDING.with(|r| r.set(true));
+}
+
+/// Stop recording; returns the blocks still live, or None if there were more than REC_MAX.
+pub fn record_take() -> Option<Vec<(usize, usize)>> {
+    RECORDING.with(|r| r.set(false));
+    let n = REC_N.with(|n| n.get());
+    if n > REC_MAX {
+        return None;
+    }
+    let v = REC.with(|a| a.get());
+    Some(v[..n].iter().copied().filter(|b| b.0 != 0).collect())
 }
 
 /// Single requests above this size are refused (null => Rust aborts).
@@ -73,6 +140,7 @@ unsafe impl GlobalAlloc for Tracking {
         let p = System.alloc(layout);
         if !p.is_null() {
             on_alloc(layout.size());
+            rec_add(p as usize, layout.size());
         }
         p
     }
@@ -86,11 +154,13 @@ unsafe impl GlobalAlloc for Tracking {
         let p = System.alloc_zeroed(layout);
         if !p.is_null() {
             on_alloc(layout.size());
+            rec_add(p as usize, layout.size());
         }
         p
     }
 
     unsafe fn dealloc(&self, ptr: *mut u8, layout: Layout) {
+        rec_del(ptr as usize);
         System.dealloc(ptr, layout);
         on_dealloc(layout.size());
     }
@@ -103,8 +173,10 @@ unsafe impl GlobalAlloc for Tracking {
         }
         let p = System.realloc(ptr, layout, new_size);
         if !p.is_null() {
+            rec_del(ptr as usize);
             on_dealloc(layout.size());
             on_alloc(new_size);
+            rec_add(p as usize, new_size);
         }
         p
     }
@@ -183,5 +255,5 @@ pub fn tls_cells() -> Vec<(usize, usize)> {
     fn r<T>(x: &T) -> (usize, usize) {
         (x as *const T as usize, std::mem::size_of::<T>())
     }
-    vec![LIVE.with(r), PEAK.with(r), COUNT.with(r), FORBID.with(r), FORBID_HITS.with(r), MAXREQ.with(r), BASE.with(r), OFFSET.with(r), PAUSED.with(r)]
+    vec![LIVE.with(r), PEAK.with(r), COUNT.with(r), FORBID.with(r), FORBID_HITS.with(r), MAXREQ.with(r), BASE.with(r), OFFSET.with(r), PAUSED.with(r), RECORDING.with(r), REC_N.with(r), REC.with(r)]
 }
